@@ -133,6 +133,17 @@ def gen_problem(rng):
     if restarts == "soft" and rng.random() < 0.3:
         params["restarts.increase_npt"] = True
         params["restarts.max_npt"] = n + 1 + int(rng.integers(1, 3))
+    if rng.random() < 0.2:
+        # random initial directions (documented), alone or with the growing phase / the parallel initialisation: further
+        # sites that evaluate points (with projections a growing set REQUIRES random directions)
+        params["init.random_initial_directions"] = True
+        v = rng.random()
+        if v < 0.4 and n >= 2:
+            params["growing.ndirs_initial"] = int(rng.integers(1, n))
+            if rng.random() < 0.6:
+                params["growing.num_new_dirns_each_iter"] = int(rng.integers(1, 3))
+        elif v < 0.7:
+            params["init.run_in_parallel"] = True
     if rng.random() < 0.3:
         params["dykstra.d_tol"] = float([1e-6, 1e-8, 1e-12][int(rng.integers(0, 3))])
     if rng.random() < 0.2:
